@@ -164,8 +164,12 @@ pub fn parse_bundle(t: &[&str]) -> Option<(Bundle, usize)> {
     p.report_to = parse_eid(t[6])?;
     p.creation_timestamp = CreationTimestamp::with_time_and_seq(t[7].parse().ok()?, t[8].parse().ok()?);
     // milliseconds, beyond u64 as well (a Duration built through the API holds up to 2^64 seconds)
-    let ms: u128 = t[9].parse().ok()?;
-    p.lifetime = Duration::new(u64::try_from(ms / 1000).ok()?, ((ms % 1000) as u32) * 1_000_000);
+    // "<ms>" or "<ms>+<ns>": a Duration built through the API may carry a fraction of a millisecond
+    let (ms_s, ns_s) = t[9].split_once('+').unwrap_or((t[9], "0"));
+    let ms: u128 = ms_s.parse().ok()?;
+    let ns: u32 = ns_s.parse().ok()?;
+    if ns >= 1_000_000 { return None; }
+    p.lifetime = Duration::new(u64::try_from(ms / 1000).ok()?, ((ms % 1000) as u32) * 1_000_000 + ns);
     p.fragmentation_offset = t[10].parse().ok()?;
     p.total_data_length = t[11].parse().ok()?;
     let n: usize = t[12].parse().ok()?;
